@@ -3,7 +3,9 @@ package transport
 import (
 	"fmt"
 	"io"
+	"net"
 	"os"
+	"strconv"
 
 	"github.com/scrapli/scrapligo/util"
 
@@ -52,7 +54,7 @@ func (t *Standard) openSession(a *Args, cfg *ssh.ClientConfig) error {
 
 	t.client, err = ssh.Dial(
 		tcp,
-		fmt.Sprintf("%s:%d", a.Host, a.Port),
+		net.JoinHostPort(a.Host, strconv.Itoa(a.Port)),
 		cfg,
 	)
 	if err != nil {
